@@ -9,10 +9,20 @@ def units(tier):
     out = script_units(SIDECARS, "table_rows", "rows", ("C11", "C12", "C20"), tier, sorted(cs.sensor_tables()))
     out.append(("native", SIDECARS, "contracts.sensor", "exhaustive_string_decoders", "exhaustive:string_decoders",
                 ("C11",)))
+    # "every sensor is reported, undecodable values become None" is _map_response's own contract
+    out += contract_units(["sensor", "protocol_cmd", "modbus", "inverter"], ["goodwe.inverter.Inverter._map_response"], tier)
+    # ... and of the bulk settings read (scenario units shared with C18)
+    from . import C18
+    out += [u for u in C18.units(tier) if u[3] == "readonly_call" and u[4].endswith(".read_settings_data")]
     return out
 
 
-replay = replay_rows
+def replay(vc, unit):
+    if ".read_settings_data" in vc["name"].split("/")[0]:
+        return replay_api(vc, unit)
+    return replay_rows(vc, unit)
+
+
 INFO = {
     "trusted_base": [TB["T1"], TB["T2"], TB["T3"]],
     "assumptions": ["A4 datetime() on integer fields returns or raises ValueError; struct.unpack('>f') on 4 bytes and round(x, 3) never raise",
